@@ -44,6 +44,10 @@ def units(tier, seed):
         for mx in (False, True):
             for sd in range(3):
                 descs.append(dict(engines=list(eng), gens=1 + k % 2, maximize=mx, obj="nanhole", Mh=3, seed=s + sd, sprout={"kind": ("simple", "nbc")[k % 2], "L": 2}))
+    # objective values that differ only in the last few ulps (7 + 1e-12 * sphere): exact comparisons are needed
+    for k, eng in enumerate(shapes_h1() + shapes_h2()[::2]):
+        for mx in (False, True):
+            descs.append(dict(engines=list(eng), gens=2, maximize=mx, obj="tiny_offset", Mh=4, seed=s, sprout={"kind": ("simple", "nbc")[k % 2], "L": 2}))
     us = [{"kind": "run", "descs": c} for c in chunks(descs, 12)]
     nmax = 120 if tier == "quick" else 300
     for box in ("B_asym", "B_dec"):
